@@ -231,7 +231,7 @@ func c01Gen(rt *rapid.T) wProg {
 		case x < 78:
 			p.Ops = append(p.Ops, wOp{K: "restart"})
 		case x < 86:
-			p.Ops = append(p.Ops, wOp{K: "fault", N: gInt(rt, 1, 5, "k"),
+			p.Ops = append(p.Ops, wOp{K: "fault", N: gInt(rt, 1, 5, "k"), B: gPick(rt, []string{"", "", "deadline", "deadline", "notfound", "dup"}, "ferr"),
 				A: gPick(rt, []string{"", "", "TopicUpdateOnMessage", "MessageSave", "SubsUpdate", "FileLinkAttachments"}, "m")}, pub())
 		case x < 92:
 			p.Ops = append(p.Ops, wOp{K: "crash", N: gInt(rt, 1, 4, "k")}, pub())
